@@ -26,11 +26,13 @@ def note(s):
     ran.append(s)
 
 run_md = open(f"{src}/demo/RUN.md").read()
-tests = [f for f in os.listdir(f"{src}/demo") if f.endswith(".go")]
-m = re.search(r"go test[^\n]*?-run\s+'?\"?([^'\"\s]+)'?\"?[^\n]*?(\./[\w/]+)", run_md)
-if not m:
+tests = [f for f in os.listdir(f"{src}/demo") if f.endswith(".go") and os.path.isfile(f"{src}/demo/{f}")]
+line = next((l for l in run_md.splitlines() if "go test" in l), "")
+mp = re.search(r"-run[ =]+'?\"?([^'\"\s]+)", line)
+mk = re.search(r"(\./[\w/]+)", line)
+if not (mp and mk):
     sys.exit("cannot parse RUN.md: " + run_md[:400])
-pattern, pkg = m.group(1), m.group(2).rstrip("/")
+pattern, pkg = mp.group(1), mk.group(1).rstrip("/")
 race = "-race" if "-race" in run_md else ""
 pkgdir = pkg[2:]
 patch = f"{src}/patch.diff"
@@ -42,6 +44,7 @@ rc, out = sh(f"git -C /repo worktree add -q --detach {wt} HEAD")
 if rc:
     sys.exit(out)
 try:
+    os.makedirs(f"{wt}/utils/{pkgdir}", exist_ok=True)
     for t in tests:
         shutil.copy(f"{src}/demo/{t}", f"{wt}/utils/{pkgdir}/{t}")
     demo = f"go test {race} -vet=off -count=1 -run '{pattern}' {pkg}/"
@@ -87,8 +90,8 @@ dst = f"/verif/seeded/{prop}-{mid}"
 shutil.rmtree(dst, ignore_errors=True)
 os.makedirs(dst + "/demo")
 shutil.copy(patch, dst + "/patch.diff")
-for f in os.listdir(f"{src}/demo"):
-    shutil.copy(f"{src}/demo/{f}", f"{dst}/demo/{f}")
+shutil.rmtree(dst + "/demo")
+shutil.copytree(f"{src}/demo", f"{dst}/demo")
 meta = {}
 try:
     meta = json.load(open(f"{src}/meta.json"))
